@@ -108,7 +108,14 @@ def spec_classes():
         props.append({"name": "method", "type": {"kind": "stringLiteral", "value": nt["method"]}, "always": True})
         props.append(dict(JSONRPC, always=True))
         out[cn] = {"props": props, "origin": "notification " + nt["method"]}
+    if INCLUDE_PACKAGE_ENVELOPES:
+        # the error response envelope is not a metamodel declaration but it is a message every client parses (C15)
+        out["ResponseError"] = {"props": [{"name": "code", "type": {"kind": "base", "name": "integer"}}, {"name": "message", "type": {"kind": "base", "name": "string"}}, {"name": "data", "type": {"kind": "reference", "name": "LSPAny"}, "optional": True}], "origin": "package envelope"}
+        out["ResponseErrorMessage"] = {"props": [{"name": "id", "type": ID_RESP, "optional": True}, {"name": "error", "type": {"kind": "reference", "name": "ResponseError"}, "optional": True}, dict(JSONRPC, always=True)], "origin": "package envelope"}
     return out
+
+
+INCLUDE_PACKAGE_ENVELOPES = False
 
 
 def p_special(p):
